@@ -59,6 +59,8 @@ type stmt struct {
 	ca, cb *expr
 	t, el  []*stmt
 	deep   bool // inc/dec below two or more enclosing if/for constructs
+	init   *stmt // `if init; cond {` / `for init; cond; post {` (an assignment or ++/--)
+	post   *stmt
 }
 
 type prog struct {
@@ -180,6 +182,27 @@ func (g *gen) block(nest int, inIf bool, inLoop bool) []*stmt {
 	return res
 }
 
+// simple: an assignment or ++/-- usable as init / post clause
+func (g *gen) simple() *stmt {
+	x := g.pickVar()
+	switch g.r.Intn(3) {
+	case 0:
+		return &stmt{k: "inc", x: x}
+	case 1:
+		return &stmt{k: "dec", x: x}
+	}
+	return &stmt{k: "asg", x: x, e: &expr{k: "add", a: &expr{k: "var", n: x}, b: g.lit()}}
+}
+
+func hasTopDecl(b []*stmt) bool {
+	for _, s := range b {
+		if s.k == "decl" {
+			return true
+		}
+	}
+	return false
+}
+
 func (g *gen) stmt(nest int, inIf bool, inLoop bool) *stmt {
 	g.budget--
 	g.p.nstmts++
@@ -211,10 +234,25 @@ func (g *gen) stmt(nest int, inIf bool, inLoop bool) *stmt {
 		return &stmt{k: "iow", x: g.r.Intn(g.p.nout), e: g.expr(2)}
 	case c < 15:
 		g.p.tags["if"] = true
-		return &stmt{k: "if", ca: g.expr(1), cb: g.expr(1), t: g.block(nest+1, true, inLoop)}
+		st := &stmt{k: "if"}
+		if g.r.Chance(1, 3) {
+			st.init = g.simple()
+			g.p.tags["if-init"] = true
+		}
+		st.ca, st.cb = g.expr(1), g.expr(1)
+		st.t = g.block(nest+1, true, inLoop)
+		return st
 	case c < 17:
 		g.p.tags["ifelse"] = true
-		return &stmt{k: "ife", ca: g.expr(1), cb: g.expr(1), t: g.block(nest+1, true, inLoop), el: g.block(nest+1, true, inLoop)}
+		st := &stmt{k: "ife"}
+		if g.r.Chance(1, 3) {
+			st.init = g.simple()
+			g.p.tags["if-init"] = true
+		}
+		st.ca, st.cb = g.expr(1), g.expr(1)
+		st.t = g.block(nest+1, true, inLoop)
+		st.el = g.block(nest+1, true, inLoop)
+		return st
 	case c < 19:
 		// a conditional loop; the body usually changes the tested variable so that it can end
 		g.p.tags["forcond"] = true
@@ -245,7 +283,18 @@ func (g *gen) stmt(nest int, inIf bool, inLoop bool) *stmt {
 		} else {
 			cb = g.expr(0)
 		}
-		return &stmt{k: "forc", ca: &expr{k: "var", n: v}, cb: cb, t: body}
+		st := &stmt{k: "forc", ca: &expr{k: "var", n: v}, cb: cb, t: body}
+		if g.r.Chance(1, 3) {
+			st.init = g.simple()
+			g.p.tags["for-init"] = true
+		}
+		// the real compiler releases the body's variables when it visits the post clause; the model has no
+		// statement form for that, so a post clause is only generated for bodies without declarations
+		if !hasTopDecl(body) && g.r.Chance(1, 3) {
+			st.post = g.simple()
+			g.p.tags["for-post"] = true
+		}
+		return st
 	default:
 		g.p.tags["forever"] = true
 		return &stmt{k: "for", t: g.block(nest+1, false, true)}
@@ -253,8 +302,12 @@ func (g *gen) stmt(nest int, inIf bool, inLoop bool) *stmt {
 }
 
 func genProg(r *common.Rng, maxstmts int) *prog {
+	return genProgW(r, maxstmts, []int{8, 8, 16, 32, 64}[r.Intn(5)])
+}
+
+func genProgW(r *common.Rng, maxstmts int, w int) *prog {
 	p := &prog{tags: map[string]bool{}}
-	p.w = []int{8, 8, 16, 32, 64}[r.Intn(5)]
+	p.w = w
 	nv := 1 + r.Intn(4)
 	for i := 0; i < nv; i++ {
 		isreg := r.Chance(1, 3)
@@ -293,10 +346,20 @@ func (e *expr) sx() string {
 }
 
 func blockSx(b []*stmt) string {
-	if len(b) == 0 {
-		return "skip"
+	// `if init; c {…}` compiles and behaves as `init; if c {…}`, `for init; c; post {…}` as
+	// `init; for c {…; post}`: the s-expression is written in that form
+	var parts []string
+	for _, s := range b {
+		if s.init != nil {
+			parts = append(parts, s.init.sx())
+		}
+		parts = append(parts, s.sx())
 	}
-	return "(seq " + b[0].sx() + " " + blockSx(b[1:]) + ")"
+	res := "skip"
+	for i := len(parts) - 1; i >= 0; i-- {
+		res = "(seq " + parts[i] + " " + res + ")"
+	}
+	return res
 }
 
 func (s *stmt) sx() string {
@@ -310,7 +373,11 @@ func (s *stmt) sx() string {
 	case "ife":
 		return fmt.Sprintf("(ife (eq %s %s) %s %s)", s.ca.sx(), s.cb.sx(), blockSx(s.t), blockSx(s.el))
 	case "forc":
-		return fmt.Sprintf("(forc (eq %s %s) %s)", s.ca.sx(), s.cb.sx(), blockSx(s.t))
+		body := s.t
+		if s.post != nil {
+			body = append(append([]*stmt{}, s.t...), s.post)
+		}
+		return fmt.Sprintf("(forc (eq %s %s) %s)", s.ca.sx(), s.cb.sx(), blockSx(body))
 	case "for":
 		return fmt.Sprintf("(for %s)", blockSx(s.t))
 	}
@@ -410,9 +477,31 @@ func normStmts(b []*stmt) {
 			s.ca = norm(s.ca)
 			s.cb = norm(s.cb)
 		}
+		if s.init != nil {
+			normStmts([]*stmt{s.init})
+		}
+		if s.post != nil {
+			normStmts([]*stmt{s.post})
+		}
 		normStmts(s.t)
 		normStmts(s.el)
 	}
+}
+
+// goSimple: an init / post clause
+func (p *prog) goSimple(s *stmt) string {
+	if s == nil {
+		return ""
+	}
+	switch s.k {
+	case "asg":
+		return p.varName(s.x) + " = " + p.goFlat(s.e)
+	case "inc":
+		return p.varName(s.x) + "++"
+	case "dec":
+		return p.varName(s.x) + "--"
+	}
+	return ""
 }
 
 func (p *prog) goBlock(sb *strings.Builder, b []*stmt, ind string) {
@@ -429,7 +518,11 @@ func (p *prog) goBlock(sb *strings.Builder, b []*stmt, ind string) {
 		case "iow":
 			fmt.Fprintf(sb, "%sbondgo.IOWrite(o%d, %s)\n", ind, s.x, p.goFlat(s.e))
 		case "if", "ife":
-			fmt.Fprintf(sb, "%sif %s == %s {\n", ind, p.goFlat(s.ca), p.goFlat(s.cb))
+			if s.init != nil {
+				fmt.Fprintf(sb, "%sif %s; %s == %s {\n", ind, p.goSimple(s.init), p.goFlat(s.ca), p.goFlat(s.cb))
+			} else {
+				fmt.Fprintf(sb, "%sif %s == %s {\n", ind, p.goFlat(s.ca), p.goFlat(s.cb))
+			}
 			p.goBlock(sb, s.t, ind+"\t")
 			if s.k == "ife" {
 				fmt.Fprintf(sb, "%s} else {\n", ind)
@@ -437,7 +530,11 @@ func (p *prog) goBlock(sb *strings.Builder, b []*stmt, ind string) {
 			}
 			fmt.Fprintf(sb, "%s}\n", ind)
 		case "forc":
-			fmt.Fprintf(sb, "%sfor %s == %s {\n", ind, p.goFlat(s.ca), p.goFlat(s.cb))
+			if s.init != nil || s.post != nil {
+				fmt.Fprintf(sb, "%sfor %s; %s == %s; %s {\n", ind, p.goSimple(s.init), p.goFlat(s.ca), p.goFlat(s.cb), p.goSimple(s.post))
+			} else {
+				fmt.Fprintf(sb, "%sfor %s == %s {\n", ind, p.goFlat(s.ca), p.goFlat(s.cb))
+			}
 			p.goBlock(sb, s.t, ind+"\t")
 			fmt.Fprintf(sb, "%s}\n", ind)
 		case "for":
@@ -448,25 +545,49 @@ func (p *prog) goBlock(sb *strings.Builder, b []*stmt, ind string) {
 	}
 }
 
-func (p *prog) goSource() string {
-	var sb strings.Builder
-	sb.WriteString("package main\n\nimport (\n\t\"bondgo\"\n)\n\nfunc main() {\n")
+// funcBody: declarations, Make assignments and statements of one function (main or a worker)
+func (p *prog) funcBody(sb *strings.Builder, gidBase int, goCall string) {
 	for i := 0; i < p.nin; i++ {
-		fmt.Fprintf(&sb, "\tvar i%d bondgo.Input\n", i)
+		fmt.Fprintf(sb, "\tvar i%d bondgo.Input\n", i)
 	}
 	for i := 0; i < p.nout; i++ {
-		fmt.Fprintf(&sb, "\tvar o%d bondgo.Output\n", i)
+		fmt.Fprintf(sb, "\tvar o%d bondgo.Output\n", i)
 	}
 	for i := range p.decls {
-		fmt.Fprintf(&sb, "\tvar %s uint%d\n", p.varName(i), p.w)
+		fmt.Fprintf(sb, "\tvar %s uint%d\n", p.varName(i), p.w)
 	}
 	for i := 0; i < p.nin; i++ {
-		fmt.Fprintf(&sb, "\ti%d = bondgo.Make(bondgo.Input, %d)\n", i, i+1)
+		fmt.Fprintf(sb, "\ti%d = bondgo.Make(bondgo.Input, %d)\n", i, gidBase+i+1)
 	}
 	for i := 0; i < p.nout; i++ {
-		fmt.Fprintf(&sb, "\to%d = bondgo.Make(bondgo.Output, %d)\n", i, p.nin+i+1)
+		fmt.Fprintf(sb, "\to%d = bondgo.Make(bondgo.Output, %d)\n", i, gidBase+p.nin+i+1)
 	}
-	p.goBlock(&sb, p.body, "\t")
+	if goCall != "" {
+		fmt.Fprintf(sb, "\tgo %s()\n", goCall)
+	}
+	p.goBlock(sb, p.body, "\t")
+}
+
+func (p *prog) goSource() string {
+	return goSourcePair(p, nil)
+}
+
+// goSourcePair: main = p; when q is given it becomes `func worker()` started with `go` from main
+// (a second processor with its own registers, memory and ports)
+func goSourcePair(p, q *prog) string {
+	var sb strings.Builder
+	sb.WriteString("package main\n\nimport (\n\t\"bondgo\"\n)\n\n")
+	if q != nil {
+		sb.WriteString("func worker() {\n")
+		q.funcBody(&sb, 20, "")
+		sb.WriteString("}\n\n")
+	}
+	sb.WriteString("func main() {\n")
+	if q != nil {
+		p.funcBody(&sb, 0, "worker")
+	} else {
+		p.funcBody(&sb, 0, "")
+	}
 	sb.WriteString("}\n")
 	return sb.String()
 }
@@ -528,6 +649,12 @@ func (p *prog) scopesOK() bool {
 				scope = append(scope, s.x)
 			case "asg", "inc", "dec":
 				resolve(s.x)
+			}
+			for _, c := range []*stmt{s.init, s.post} {
+				if c != nil {
+					resolve(c.x)
+					ex(c.e)
+				}
 			}
 			ex(s.e)
 			ex(s.ca)
@@ -656,12 +783,10 @@ func waitDone(done chan struct{}, markers []string) string {
 // ---------------------------------------------------------------------------------------------
 // in-process compile with the wiring of cmd/bondgo/bondgo.go main()
 
-type compRes struct {
+// what the compiler produced for one processor (routine)
+type procRes struct {
 	asm    []string
 	haveAs bool
-	faulty string
-	phase  string
-	exit   string
 	regs   int
 	ram    int
 	rom    int
@@ -670,6 +795,24 @@ type compRes struct {
 	ops    []string
 	haveRq bool
 	mach   string // summary of the machine Create_Connecting_Processor builds from the requirements
+}
+
+type compRes struct {
+	procRes          // processor 0 (main)
+	more    []procRes // processors 1.. (functions started with `go`)
+	faulty  string
+	phase   string
+	exit    string
+}
+
+func (r *compRes) proc(i int) *procRes {
+	if i == 0 {
+		return &r.procRes
+	}
+	for len(r.more) < i {
+		r.more = append(r.more, procRes{})
+	}
+	return &r.more[i-1]
 }
 
 func newConfig(w int) *bondgo.BondgoConfig {
@@ -727,14 +870,22 @@ func compileWorker(f *ast.File, config *bondgo.BondgoConfig, res *compRes, mu *s
 			bgmain.Set_faulty("main function not found.")
 		}
 		// the emitted lines are complete here: copy them (Write_assembly strips the <<n>> markers)
+		nproc := len(bgmain.Program)
 		mu.Lock()
 		if !bgmain.Is_faulty() {
-			txt := bgmain.Write_assembly(0)
-			res.asm = strings.Split(strings.TrimRight(txt, "\n"), "\n")
-			if txt == "" {
-				res.asm = nil
+			for pi := 0; pi < nproc; pi++ {
+				if _, ok := bgmain.Program[pi]; !ok {
+					continue
+				}
+				txt := bgmain.Write_assembly(pi)
+				pr := res.proc(pi)
+				// keep blank lines: they are part of what the compiler wrote (and counted)
+				pr.asm = strings.Split(strings.TrimSuffix(txt, "\n"), "\n")
+				if txt == "" {
+					pr.asm = nil
+				}
+				pr.haveAs = true
 			}
-			res.haveAs = true
 		}
 		mu.Unlock()
 		for procid, rout := range bgmain.Program {
@@ -746,10 +897,13 @@ func compileWorker(f *ast.File, config *bondgo.BondgoConfig, res *compRes, mu *s
 		<-usagedone
 		// the monitor has finished: its tables are final
 		mu.Lock()
-		if pr, ok := reqmnts.Procr[0]; ok {
-			res.regs, res.ram, res.rom, res.ins, res.outs = pr.Registersize, pr.Ramsize, pr.Romsize, pr.Inputs, pr.Outputs
-			res.ops = append([]string{}, pr.Opcodes...)
-			res.haveRq = true
+		for pi := 0; pi < nproc; pi++ {
+			if pr, ok := reqmnts.Procr[pi]; ok {
+				q := res.proc(pi)
+				q.regs, q.ram, q.rom, q.ins, q.outs = pr.Registersize, pr.Ramsize, pr.Romsize, pr.Inputs, pr.Outputs
+				q.ops = append([]string{}, pr.Opcodes...)
+				q.haveRq = true
+			}
 		}
 		mu.Unlock()
 		setPhase("exit-assigner")
@@ -760,13 +914,17 @@ func compileWorker(f *ast.File, config *bondgo.BondgoConfig, res *compRes, mu *s
 		// the machine cmd/bondgo -save-machine would write: built from the requirement tables, the
 		// emitted program assembled for it (errors are printed to stdout by the package: captured)
 		setPhase("machine")
-		mach := ""
 		if wantMachine && os.Getenv("C12_NOMACH") == "" {
-			mach = machineSummary(bgmain, int(config.Rsize))
+			for pi := 0; pi < nproc; pi++ {
+				if _, ok := reqmnts.Procr[pi]; !ok {
+					continue
+				}
+				mach := machineSummary(bgmain, int(config.Rsize), pi)
+				mu.Lock()
+				res.proc(pi).mach = mach
+				mu.Unlock()
+			}
 		}
-		mu.Lock()
-		res.mach = mach
-		mu.Unlock()
 	}
 	mu.Lock()
 	if bgmain.Is_faulty() {
@@ -779,7 +937,7 @@ func compileWorker(f *ast.File, config *bondgo.BondgoConfig, res *compRes, mu *s
 
 var stdoutMu sync.Mutex
 
-func machineSummary(bg *bondgo.BondgoCheck, rsize int) (res string) {
+func machineSummary(bg *bondgo.BondgoCheck, rsize int, procid int) (res string) {
 	defer func() {
 		if r := recover(); r != nil {
 			res = "panic:" + strings.ReplaceAll(fmt.Sprint(r), " ", "_")
@@ -806,7 +964,7 @@ func machineSummary(bg *bondgo.BondgoCheck, rsize int) (res string) {
 		}
 		captured <- sb.String()
 	}()
-	m, ok := bg.Create_Connecting_Processor(rsize, 0)
+	m, ok := bg.Create_Connecting_Processor(rsize, procid)
 	os.Stdout = saved
 	wr.Close()
 	msg := strings.TrimSpace(<-captured)
@@ -872,7 +1030,7 @@ func rescue(done chan struct{}, usagenotify chan bondgo.UsageNotify) {
 
 var scheds = []string{"0", "s1:100", "s2:50"}
 
-func emitProgram(id int, p *prog, src string, salt int, extraSched string) {
+func emitHeader(id int, p *prog, salt int) {
 	fuel := 10
 	steps := 6000
 	out.Line("PROG %d w=%d fuel=%d steps=%d salt=%d decls=%s body=%s", id, p.w, fuel, steps, salt, p.declStr(), blockSx(p.body))
@@ -882,7 +1040,18 @@ func emitProgram(id int, p *prog, src string, salt int, extraSched string) {
 	}
 	sortStrings(tags)
 	out.Line("TAG %d %s n=%d nin=%d nout=%d", id, strings.Join(tags, ","), p.nstmts, p.nin, p.nout)
-	emitCompiles(id, src, p.w, steps, salt, extraSched)
+}
+
+func emitProgram(id int, p *prog, src string, salt int, extraSched string) {
+	emitHeader(id, p, salt)
+	emitCompiles([]int{id}, src, p.w, 6000, []int{salt}, extraSched)
+}
+
+// emitPair: main program p with a function q started by `go` on a second processor
+func emitPair(id, qid int, p, q *prog, src string, salt int, extraSched string) {
+	emitHeader(id, p, salt)
+	emitHeader(qid, q, salt+7)
+	emitCompiles([]int{id, qid}, src, p.w, 6000, []int{salt, salt + 7}, extraSched)
 }
 
 func sortStrings(a []string) {
@@ -893,8 +1062,10 @@ func sortStrings(a []string) {
 	}
 }
 
-func emitCompiles(id int, src string, w, steps, salt int, extraSched string) {
-	var first *compRes
+// emitCompiles compiles src under the schedules and prints, for every processor pi with ids[pi] >= 0,
+// the lines of that processor under the case id ids[pi].
+func emitCompiles(ids []int, src string, w, steps int, salts []int, extraSched string) {
+	first := make([]*procRes, len(ids))
 	ss := append([]string{}, scheds...)
 	if v := os.Getenv("C12_SCHEDS"); v != "" {
 		ss = strings.Split(v, ",")
@@ -905,23 +1076,36 @@ func emitCompiles(id int, src string, w, steps, salt int, extraSched string) {
 	}
 	for _, sc := range ss {
 		r := compileInProc(src, w, sc)
-		same := 1
-		if r.haveAs {
-			if first == nil {
-				first = r
-				out.Line("IMPL %d w=%d steps=%d salt=%d asm=%s", id, w, steps, salt, strings.Join(r.asm, ";"))
-			} else if strings.Join(first.asm, ";") != strings.Join(r.asm, ";") {
-				same = 0
-				out.Line("IMPLDIFF %d sched=%s asm=%s", id, sc, strings.Join(r.asm, ";"))
+		for pi, id := range ids {
+			if id < 0 {
+				continue
 			}
+			pr := r.proc(pi)
+			same := 1
+			if pr.haveAs {
+				if first[pi] == nil {
+					cp := *pr
+					first[pi] = &cp
+					out.Line("IMPL %d w=%d steps=%d salt=%d asm=%s", id, w, steps, salts[pi], strings.Join(pr.asm, ";"))
+				} else if strings.Join(first[pi].asm, ";") != strings.Join(pr.asm, ";") {
+					same = 0
+					out.Line("IMPLDIFF %d sched=%s asm=%s", id, sc, strings.Join(pr.asm, ";"))
+				}
+			}
+			if pr.haveRq {
+				out.Line("IREQ %d sched=%s regs=%d ram=%d rom=%d ins=%d outs=%d ops=%s", id, sc, pr.regs, pr.ram, pr.rom, pr.ins, pr.outs, strings.Join(pr.ops, ","))
+			}
+			if pr.mach != "" {
+				nonblank := 0
+				for _, l := range pr.asm {
+					if strings.TrimSpace(l) != "" {
+						nonblank++
+					}
+				}
+				out.Line("IMACH %d sched=%s lines=%d %s", id, sc, nonblank, pr.mach)
+			}
+			out.Line("ISCH %d sched=%s exit=%s same=%d", id, sc, r.exit, same)
 		}
-		if r.haveRq {
-			out.Line("IREQ %d sched=%s regs=%d ram=%d rom=%d ins=%d outs=%d ops=%s", id, sc, r.regs, r.ram, r.rom, r.ins, r.outs, strings.Join(r.ops, ","))
-		}
-		if r.mach != "" {
-			out.Line("IMACH %d sched=%s lines=%d %s", id, sc, len(r.asm), r.mach)
-		}
-		out.Line("ISCH %d sched=%s exit=%s same=%d", id, sc, r.exit, same)
 		out.Flush()
 	}
 }
@@ -1179,6 +1363,21 @@ func main() {
 				out.Line("GENBUG %d scoping invariant of the generator violated; program skipped", id)
 				continue
 			}
+			if r.Chance(1, 4) {
+				// a second processor: a function started with `go` (no arguments: plain IO)
+				q := genProgW(r, maxstmts, p.w)
+				normStmts(q.body)
+				if q.scopesOK() {
+					q.tags["goroutine"] = true
+					p.tags["go-stmt"] = true
+					src := goSourcePair(p, q)
+					qid := 200000 + id
+					os.WriteFile(filepath.Join(dir, fmt.Sprintf("p%d.go", id)), []byte(src), 0o644)
+					os.WriteFile(filepath.Join(dir, fmt.Sprintf("p%d.go", qid)), []byte(src), 0o644)
+					emitPair(id, qid, p, q, src, int(seed)*131+id, strconv.Itoa(1+r.Intn(1000000)))
+					continue
+				}
+			}
 			src := p.goSource()
 			os.WriteFile(filepath.Join(dir, fmt.Sprintf("p%d.go", id)), []byte(src), 0o644)
 			emitProgram(id, p, src, int(seed)*131+id, strconv.Itoa(1+r.Intn(1000000)))
@@ -1203,7 +1402,18 @@ func main() {
 		if len(os.Args) > 5 {
 			salt, _ = strconv.Atoi(os.Args[5])
 		}
-		emitCompiles(id, string(b), w, 6000, salt, "")
+		proc := 0
+		if len(os.Args) > 6 {
+			proc, _ = strconv.Atoi(os.Args[6])
+		}
+		ids := make([]int, proc+1)
+		salts := make([]int, proc+1)
+		for i := range ids {
+			ids[i] = -1
+		}
+		ids[proc] = id
+		salts[proc] = salt
+		emitCompiles(ids, string(b), w, 6000, salts, "")
 	case "proto":
 		n, _ := strconv.Atoi(os.Args[2])
 		r := common.NewRng(seed*7919 + 5)
